@@ -140,6 +140,13 @@ def ofEff : Eff → Json
   | .assign s t n f v => Json.arr #["assign", Json.num s, ofStr t, ofStr n, ofStr f, ofStr v]
   | .unassign s t n f => Json.arr #["unassign", Json.num s, ofStr t, ofStr n, ofStr f]
   | .rmTree d => Json.arr #["rmTree", ofDir d]
+def ofMsg : Msg → Json
+  | .declaring s t => Json.arr #["declaring", Json.num s, ofTagOpt t]
+  | .assigning t => Json.arr #["assigning", ofStr t]
+  | .untag t => Json.arr #["untag", ofStr t]
+  | .removing v s => Json.arr #["removing", ofStr v, Json.num s]
+  | .rmrf d => Json.arr #["rmrf", ofDir d]
+
 def ofCache (c : CacheFile) : Json :=
   Json.mkObj [("user", Json.num c.user), ("stack", Json.num c.stack), ("flavor", ofStr c.flav),
               ("mtime", Json.num c.mtime), ("c", ofSpec c.c)]
@@ -168,7 +175,8 @@ def handle : Handler := fun j => do
     steps := steps.push <| Json.mkObj
       [("out", ofOutcome r.out), ("crashed", Json.bool r.crashed),
        ("flavs", Json.arr (r.flavs.map ofStrs).toArray), ("view", ofSpec r.view),
-       ("trace", Json.arr (r.trace.map ofEff).toArray), ("db", ofSpec w.db),
+       ("trace", Json.arr (r.trace.map ofEff).toArray), ("would", Json.arr (r.would.map ofMsg).toArray),
+       ("db", ofSpec w.db),
        ("caches", Json.arr (w.caches.map ofCache).toArray),
        ("touch", Json.arr (w.touch.map ofTouch).toArray),
        ("dirs", Json.arr (w.dirs.map fun d => ofDir d.dir).toArray),
